@@ -22,8 +22,12 @@ import (
 	"verif/harness/t1ref"
 )
 
-var formats = []type1.FileFormat{type1.FormatPFA, type1.FormatPFB, type1.FormatBinary, type1.FormatNoEExec}
-var formatNames = map[type1.FileFormat]string{type1.FormatPFA: "PFA", type1.FormatPFB: "PFB", type1.FormatBinary: "binary", type1.FormatNoEExec: "noeexec"}
+// formatPDF stands for Font.WritePDF (the writer for embedding, binary eexec
+// without trailer): its output is read back like the others.
+const formatPDF = type1.FileFormat(99)
+
+var formats = []type1.FileFormat{type1.FormatPFA, type1.FormatPFB, type1.FormatBinary, type1.FormatNoEExec, formatPDF}
+var formatNames = map[type1.FileFormat]string{formatPDF: "WritePDF", type1.FormatPFA: "PFA", type1.FormatPFB: "PFB", type1.FormatBinary: "binary", type1.FormatNoEExec: "noeexec"}
 
 type c10case struct {
 	Data []byte `json:"data"`
@@ -83,7 +87,13 @@ func excluded(f *type1.Font, ex exclusions) string {
 
 func writeRead(f *type1.Font, format type1.FileFormat) (*type1.Font, string) {
 	var buf bytes.Buffer
-	if err := f.Write(&buf, &type1.WriterOptions{Format: format}); err != nil {
+	var err error
+	if format == formatPDF {
+		_, _, err = f.WritePDF(&buf)
+	} else {
+		err = f.Write(&buf, &type1.WriterOptions{Format: format})
+	}
+	if err != nil {
 		return nil, fmt.Sprintf("Write(%s) fails: %v", formatNames[format], err)
 	}
 	g, err := type1.Read(bytes.NewReader(buf.Bytes()))
